@@ -377,4 +377,60 @@ theorem toXml_reads (cfg : Cfg) (hcfg : cfgOk cfg = true) (o : Opts) (ho : isGoo
         by rw [hd]; simp [declHead, List.append_assoc]⟩
 
 
+/-! ### the boundary towards attributes: `@` keys -/
+
+/-- text or a number -/
+def isScalarVal : Val → Bool
+  | .str _ | .int _ | .flt _ | .bool _ => true
+  | _ => false
+
+/-- the `NotImplementedError` branch: an `@` key holding text or a number -/
+theorem xmlEntry_attr (cfg : Cfg) (inc : Nat) (k : Str) (v : Val) (indent : Nat) (hv : isScalarVal v = true) :
+    xmlEntry cfg inc ('@' :: k) v indent = .error .NotImplementedError := by
+  cases v <;> simp [isScalarVal] at hv <;> simp [xmlEntry, isAttrKey, startsWith]
+
+/-- the entry loop reaches the `@` entry after any XML-shaped entries and raises there -/
+theorem entries_attr_raises (cfg : Cfg) (hcfg : cfgOk cfg = true) (inc : Nat) (lists : Bool) (k : Str) (v : Val)
+    (rest : List (Str × Val)) (hv : isScalarVal v = true) :
+    ∀ (pre : List (Str × Val)) (indent : Nat) (ne : Bool), keysNodup pre = true → shapedKvs lists pre = true →
+      xmlEntries cfg inc (pre ++ ('@' :: k, v) :: rest) indent ne = .error .NotImplementedError := by
+  have hvl : isListVal v = false := by cases v <;> simp [isScalarVal] at hv <;> rfl
+  intro pre
+  induction pre with
+  | nil =>
+    intro indent ne _ _
+    rw [List.nil_append, xmlEntries_cons_single cfg inc _ v rest indent ne hvl, xmlEntry_attr cfg inc k v indent hv]
+    rfl
+  | cons p pre ih =>
+    obtain ⟨k0, v0⟩ := p
+    intro indent ne hn hs
+    have hs' : (isName k0 = true ∧ shapedVal lists v0 = true) ∧ shapedKvs lists pre = true := by
+      simpa [shapedKvs] using hs
+    obtain ⟨_, hn'⟩ := keysNodup_cons hn
+    cases hl : isListVal v0 with
+    | false =>
+      obtain ⟨body, hbody, _⟩ := entry_out cfg hcfg inc lists v0 k0 indent hs'.1.1 hs'.1.2 hl
+      rw [List.cons_append, xmlEntries_cons_single cfg inc k0 v0 _ indent ne hl, hbody]
+      simp [ih indent _ hn' hs'.2, bind, Except.bind]
+    | true =>
+      cases v0 <;> simp [isListVal] at hl
+      rename_i c xs
+      have hx : (lists = true ∧ xs ≠ []) ∧ shapedItems lists xs = true := by
+        have := hs'.1.2
+        simpa [shapedVal] using this
+      obtain ⟨q, hq, _, _⟩ := repeat_out cfg hcfg inc lists xs k0 indent ne hs'.1.1 hx.2
+      rw [List.cons_append, xmlEntries_cons_list cfg inc k0 c xs _ indent ne hx.1.2, hq]
+      simp [ih indent _ hn' hs'.2, bind, Except.bind]
+
+/-- a record with an `@` key holding text or a number, after any XML-shaped entries: `to_xml` raises
+`NotImplementedError` (attributes cannot be exported) -/
+theorem toXml_attr_not_implemented (cfg : Cfg) (hcfg : cfgOk cfg = true) (o : Opts) (lists : Bool) (c c' : Cls)
+    (r k : Str) (pre rest : List (Str × Val)) (v : Val) (hn : keysNodup pre = true) (hs : shapedKvs lists pre = true)
+    (hv : isScalarVal v = true) :
+    toXml cfg o (.dict c [(r, .dict c' (pre ++ ('@' :: k, v) :: rest))]) = .error .NotImplementedError := by
+  simp only [toXml, xmlVal]
+  rw [xmlEntries_cons_single cfg o.indent r _ [] 0 false rfl]
+  have h := entries_attr_raises cfg hcfg o.indent lists k v rest hv pre o.indent false hn hs
+  simp [xmlEntry, h, bind, Except.bind]
+
 end N0.Xml
